@@ -706,3 +706,133 @@ def run_stall(case):
         return {'harness_error': type(e).__name__ + ': ' + str(e)[:100]}
     finally:
         srv.cleanup()
+
+
+@connect_restoring_ids
+def run_two(sc):
+    """Two sessions alive in ONE process.  Session B has `held` asynchronous requests outstanding whose replies its server holds back;
+    session A meanwhile does a request and ENDS (sc['end']: 'close_session' | 'server-eof' | 'local-close'); then B's server answers.
+    Each of B's requests must complete with its own reply and B must stay usable."""
+    held, release = [], threading.Event()
+
+    def handler_b(srv, req):
+        held.append(req)
+        return []
+    sa = make_server(dict(sc, transport=sc.get('transport_a', 'unix')), None)
+    sb = make_server(dict(sc, transport=sc.get('transport_b', 'unix')), handler_b)
+    res = {'connect': None}
+    ma = mb = None
+    try:
+        try:
+            ma = connect(sa, dict(sc, transport=sc.get('transport_a', 'unix')), timeout=5)
+            mb = connect(sb, dict(sc, transport=sc.get('transport_b', 'unix')), timeout=5)
+        except Exception as e:
+            res['connect'] = 'exc:' + exc_name(e)
+            return res
+        res['connect'] = 'ok'
+        mb.async_mode = True
+        rpcs = []
+        for i in range(sc.get('held', 2)):
+            node = new_ele('probe')
+            sub_ele(node, 'tag').text = 'B%d' % i
+            rpcs.append(mb.rpc(node))
+        t_end = time.time() + 3
+        while len(held) < len(rpcs) and time.time() < t_end:
+            time.sleep(0.005)
+        try:
+            ma.get()
+            res['a_get'] = 'ok'
+        except Exception as e:
+            res['a_get'] = 'exc:' + exc_name(e)
+        if sc['end'] == 'close_session':
+            try:
+                ma.close_session()
+            except Exception as e:
+                res['a_close'] = 'exc:' + exc_name(e)
+        elif sc['end'] == 'server-eof':
+            sa.close()
+        else:
+            ma._session.close()
+        t_end = time.time() + 3
+        while ma.connected and time.time() < t_end:
+            time.sleep(0.005)
+        time.sleep(0.05)
+        res['b_before'] = [('done' if r.event.is_set() else 'pending') for r in rpcs]
+        res['b_errors_before'] = [exc_name(r.error) if r.error is not None else None for r in rpcs]
+        for req in held:
+            tag = re.search(r'<(?:\w+:)?tag>([^<]*)</', req)
+            sb.do_actions([('send', '<rpc-reply message-id="%s" xmlns="%s"><data><tag>%s</tag></data></rpc-reply>' % (
+                FS.msg_id_of(req), FS.BASE_NS, tag.group(1) if tag else '?'))])
+        out = []
+        for i, r in enumerate(rpcs):
+            r.event.wait(3)
+            if r.error is not None:
+                out.append(['exc', exc_name(r.error)])
+            elif r.reply is None:
+                out.append(['none'])
+            else:
+                tg = re.search(r'<(?:\w+:)?tag>([^<]*)</', reply_text(r.reply))
+                out.append(['reply', tg.group(1) if tg else None])
+        res['b_out'] = out
+        time.sleep(0.05)
+        res['b_connected'] = mb.connected
+        mb.async_mode = False
+        try:
+            sb.handler = lambda srv, req: [('send', FS.ok_reply(FS.msg_id_of(req)))]
+            mb.timeout = 3
+            mb.get()
+            res['b_after'] = 'ok'
+        except Exception as e:
+            res['b_after'] = 'exc:' + exc_name(e)
+        return res
+    finally:
+        for m in (ma, mb):
+            try:
+                if m is not None:
+                    m._session.close()
+            except Exception:
+                pass
+        sa.cleanup()
+        sb.cleanup()
+
+
+def run_many(sc):
+    """One session (stub transport, the real RPC / RPCReplyListener objects) with sc['n'] asynchronous requests outstanding at the same
+    time, `stale` of them never answered; the server then answers the others in the order sc['order'] ('fifo' | 'lifo' | 'shuffled')."""
+    from impl.rpcstub import make_manager
+    from ncclient.xml_ import parse_root
+    m, s, dh = make_manager(profile=sc.get('profile', 'default'), responder=None, raise_mode=0)
+    m.async_mode = True
+    rpcs = []
+    for i in range(sc['n']):
+        node = new_ele('probe')
+        sub_ele(node, 'tag').text = 'N%d' % i
+        rpcs.append(m.rpc(node))
+    ids = [FS.msg_id_of(t) for t in s.sent]
+    order = list(range(sc.get('stale', 0), sc['n']))
+    if sc.get('order') == 'lifo':
+        order.reverse()
+    elif sc.get('order') == 'shuffled':
+        random.Random(sc.get('seed', 0)).shuffle(order)
+    listener_errors = []
+    for i in order:
+        reply = '<rpc-reply message-id="%s" xmlns="%s"><data><tag>N%d</tag></data></rpc-reply>' % (ids[i], FS.BASE_NS, i)
+        root = parse_root(reply)
+        for l in list(s._listeners):
+            try:
+                l.callback(root, reply)
+            except Exception as e:          # the session thread would deliver this to every listener and close
+                listener_errors.append(exc_name(e))
+                for l2 in list(s._listeners):
+                    l2.errback(e)
+    wrong = []
+    for i in order:
+        r = rpcs[i]
+        if r.error is not None:
+            wrong.append([i, 'exc:' + exc_name(r.error)])
+        elif r.reply is None:
+            wrong.append([i, 'none'])
+        elif '<tag>N%d</tag>' % i not in reply_text(r.reply):
+            wrong.append([i, 'foreign'])
+    return {'n': sc['n'], 'distinct_ids': len(set(ids)), 'wrong': wrong[:5], 'n_wrong': len(wrong), 'listener_errors': listener_errors[:3],
+            'stale_done': sum(1 for i in range(sc.get('stale', 0)) if rpcs[i].event.is_set())}
